@@ -30,6 +30,72 @@ import (
 type WSPair struct {
 	A, B *websocket.Conn // A: upgraded (server) side, B: dialled (client) side
 	ts   *httptest.Server
+	maxA *atomic.Int64 // A's network connection returns at most that many bytes per Read (0: no limit)
+}
+
+// LimitReadsA makes the network connection under A deliver at most k bytes
+// per Read from now on (0: whatever the kernel has).
+func (p *WSPair) LimitReadsA(k int) { p.maxA.Store(int64(k)) }
+
+type chunkConn struct {
+	net.Conn
+	max *atomic.Int64
+}
+
+func (c *chunkConn) Read(b []byte) (int, error) {
+	if m := c.max.Load(); m > 0 && int64(len(b)) > m {
+		b = b[:m]
+	}
+	return c.Conn.Read(b)
+}
+
+type chunkListener struct {
+	net.Listener
+	max *atomic.Int64
+}
+
+func (l *chunkListener) Accept() (net.Conn, error) {
+	c, err := l.Listener.Accept()
+	if err != nil {
+		return nil, err
+	}
+	return &chunkConn{Conn: c, max: l.max}, nil
+}
+
+// WriteFragmentedClient sends data as ONE binary websocket message in two
+// fragments, the first with the first `first` bytes, written straight onto
+// the network connection of the dialled side c (client frames: masked).  No
+// other write on c may be in progress.  With first <= 0 or >= len(data) it
+// is an ordinary single-frame message.
+func WriteFragmentedClient(c *websocket.Conn, data []byte, first int) error {
+	if first <= 0 || first >= len(data) {
+		return c.WriteMessage(websocket.BinaryMessage, data)
+	}
+	frame := func(fin bool, opcode byte, payload []byte) []byte {
+		b0 := opcode
+		if fin {
+			b0 |= 0x80
+		}
+		out := []byte{b0}
+		n := len(payload)
+		switch {
+		case n < 126:
+			out = append(out, 0x80|byte(n))
+		case n < 65536:
+			out = append(out, 0x80|126, byte(n>>8), byte(n))
+		default:
+			out = append(out, 0x80|127, 0, 0, 0, 0, byte(n>>24), byte(n>>16), byte(n>>8), byte(n))
+		}
+		key := [4]byte{0x3a, 0x91, 0x5c, 0xe7}
+		out = append(out, key[:]...)
+		for i, x := range payload {
+			out = append(out, x^key[i%4])
+		}
+		return out
+	}
+	buf := append(frame(false, websocket.BinaryMessage, data[:first]), frame(true, 0, data[first:])...)
+	_, err := c.UnderlyingConn().Write(buf)
+	return err
 }
 
 // NewWSPair makes a connected pair.
@@ -37,7 +103,8 @@ func NewWSPair() (*WSPair, error) {
 	up := &websocket.Upgrader{ReadBufferSize: 64 * 1024, WriteBufferSize: 64 * 1024}
 	got := make(chan *websocket.Conn, 1)
 	hold := make(chan struct{})
-	ts := httptest.NewServer(http.HandlerFunc(func(w http.ResponseWriter, r *http.Request) {
+	maxA := new(atomic.Int64)
+	ts := httptest.NewUnstartedServer(http.HandlerFunc(func(w http.ResponseWriter, r *http.Request) {
 		c, err := up.Upgrade(w, r, nil)
 		if err != nil {
 			got <- nil
@@ -46,7 +113,9 @@ func NewWSPair() (*WSPair, error) {
 		got <- c
 		<-hold
 	}))
-	p := &WSPair{ts: ts}
+	ts.Listener = &chunkListener{Listener: ts.Listener, max: maxA}
+	ts.Start()
+	p := &WSPair{ts: ts, maxA: maxA}
 	u := "ws" + strings.TrimPrefix(ts.URL, "http")
 	d := &websocket.Dialer{ReadBufferSize: 64 * 1024, WriteBufferSize: 64 * 1024}
 	b, _, err := d.Dial(u, nil)
